@@ -268,6 +268,9 @@ def run(rep, facts, config='default'):
                        'no recognised space test dominates this handle construction (cap_use=%d)' % need,
                        site(b, bi), None, config)
                 continue
+            if not hasattr(rep, 'guards'):
+                rep.guards = {}
+            rep.guards[(config, key)] = (best, dest_ty, site(b, bi))
             rep.ob('R-HANDLE.guard', key, need <= best,
                    'space test proves %d unit(s) but %s can store %d' % (best, h, need),
                    site(b, bi), {'cap_guard': best, 'cap_use': need, 'guard_at': site(b, best_S)}, config)
